@@ -1039,6 +1039,14 @@ func (g *Gen) genDonate(t *rapid.T, w *World, s *Snap) Op {
 		a = pick(t, "donate-waiting-auction", waiting)
 		o.Auction, o.To = a.ID, "selling"
 	}
+	// a fixed-price auction that is (nearly) sold out: what reaches its selling escrow now is all it holds at the end
+	if soldOut := auctionsWith(s, func(x *Auc) bool {
+		return x.Status == types.AuctionStatusStarted && !x.IsBatch() && x.Remaining.Cmp(bi(1)) <= 0
+	}); len(soldOut) > 0 && pct(t, 30, "donate-sold-out") {
+		a = pick(t, "donate-sold-out-auction", soldOut)
+		o.Auction, o.To = a.ID, "selling"
+		g.label("donate:selling-escrow-of-a-sold-out-auction")
+	}
 	switch uni(t, "donate-denom", 4) {
 	case 0, 1: // the relevant denom of that escrow
 		if o.To == "selling" {
